@@ -54,8 +54,11 @@ class FakeIO:
         self.lines = []
         self.allow = 0
         self.closed = False
+        self.broken = False
 
     def send(self, line):
+        if self.broken:
+            raise BrokenPipeError('connection lost')
         self.sent.append(line)
 
     def readline(self, timeout=None):
@@ -253,6 +256,19 @@ def run_steps(env, p):
             env.check(reply[0].startswith('error_') and type(e).__name__ in ('RangeError', 'ProtocolError'), K + '/get_reply-raised',
                       [reply, type(e).__name__])
     env.check(all(e[1].nset <= 1 for e in entries), K + '/request-completed-twice')
+    # the connection may break exactly while the next queued request is transmitted
+    if queue_model and env.choice('break-at-send', 2):
+        io.broken = True
+        i = queue_model[0]
+        cl.txq.allow = 1
+        try:
+            cl._SecopClient__txthread()
+        except StepDone:
+            pass
+        except OSError:
+            pass      # the transmit thread dies with the connection; the receive thread notices and disconnects
+        except Exception as e:
+            env.fail(K + '/transmit-loop-raised/' + type(e).__name__, repr(e))
     # connection lost / shut down: every waiting caller is released with a connection error
     shutdown = bool(env.choice('shutdown', 2))
     cl._txthread = None
